@@ -1,7 +1,7 @@
 #!/bin/sh
 # tools/try_patch.sh <patch.diff> <Cxx> [more Cxx...]: deductive part only (no harness) against a scratch copy of /repo/src with the patch applied
 P=$1; shift
-D=$(mktemp -d /tmp/tryp_XXXX); cp -r /repo/src $D/src; patch -p1 -s -d $D -i $P || { echo patch failed; rm -rf $D; exit 2; }
+D=$(mktemp -d /tmp/tryp_XXXX); git -C /repo archive HEAD src | tar -x -C $D; patch -p1 -s -d $D -i $P || { echo patch failed; rm -rf $D; exit 2; }
 for p in "$@"; do
   out=$(MDPAX_SRC=$D/src VERIF_NO_HARNESS=1 VERIF_NO_INLINE=1 VERIF_OUT_DIR=$D/out /verif/bin/check $p 2>&1); rc=$?
   echo "== $p rc=$rc"; echo "$out" | tail -6 | cut -c1-700
